@@ -107,7 +107,7 @@ pub uninterp spec fn source_record(r: &Arc<Record>) -> bool;
 #[verifier::external_body]
 pub struct FeoxStore { _p: () }
 impl FeoxStore {
-    pub uninterp spec fn is_source(&self) -> bool;
+    pub open spec fn is_source(&self) -> bool { self.read_only_of() }
     #[verifier::external_body]
     pub fn resolve_value_ref(&self, key: &Vec<u8>, record: &Arc<Record>) -> (r: MigrationResult<Bytes>)
         ensures r matches Ok(v) ==> v.view() == value_of(record),
@@ -192,3 +192,105 @@ pub fn count_up(x: u64) -> (r: u64)
 pub open spec fn pair_ok(s: &Arc<Record>, d: &Arc<Record>) -> bool {
     s.key@ == d.key@ && s.timestamp == d.timestamp && s.ttl_expiry.val() == d.ttl_expiry.val() && value_of(s) == value_of(d)
 }
+
+// ---- migrate(): the orchestration
+pub struct MigrationOptions {
+    pub source: PathH,
+    pub destination: PathH,
+    pub allow_ambiguous_legacy_recovery: bool,
+    pub hash_bits: u32,
+}
+pub struct MigrationReport {
+    pub source_version: u32,
+    pub destination_version: u32,
+    pub records: u64,
+    pub value_bytes: u64,
+    pub destination_size: u64,
+    pub ambiguous_legacy_markers: u64,
+}
+pub struct SourceLayout {
+    pub required_size: u64,
+    pub value_bytes: u64,
+}
+pub struct StoreConfig { pub hash_bits: u32, pub file_size: Option<u64> }
+pub const MAX_DEVICE_SIZE: u64 = 1 << 40;
+
+#[verifier::external_body]
+pub fn open_read_only_file(path: &PathH) -> MigrationResult<FileH> { unimplemented!() }
+impl FileStamp {
+    #[verifier::external_body]
+    pub fn read_file(file: &FileH, path: &PathH) -> MigrationResult<FileStamp> { unimplemented!() }
+    #[verifier::external_body]
+    pub fn read(path: &PathH) -> MigrationResult<FileStamp> { unimplemented!() }
+    #[verifier::external_body]
+    pub fn read_store_file(store: &FeoxStore, path: &PathH) -> MigrationResult<FileStamp> { unimplemented!() }
+}
+// A != B on file stamps   (rule R-stampeq)
+#[verifier::external_body]
+pub fn stamp_ne(a: &FileStamp, b: &FileStamp) -> (r: bool)
+    ensures r == (a.id() != b.id()),
+{
+    unimplemented!()
+}
+impl FeoxStore {
+    pub uninterp spec fn format_version_of(&self) -> u32;
+    pub uninterp spec fn read_only_of(&self) -> bool;
+    #[verifier::external_body]
+    pub fn format_version(&self) -> (v: u32)
+        ensures v == self.format_version_of(),
+    {
+        unimplemented!()
+    }
+    #[verifier::external_body]
+    pub fn device_size(&self) -> u64 { unimplemented!() }
+    #[verifier::external_body]
+    pub fn ambiguous_legacy_markers(&self) -> u64 { unimplemented!() }
+    // destination.device_file.as_ref().ok_or(NoDevice)?.try_clone().map_err(Io)?   (rule R-fs)
+    #[verifier::external_body]
+    pub fn clone_device_file(&self, temporary: &PathH) -> MigrationResult<FileH> { unimplemented!() }
+    // FeoxStore::with_config_for_migration_destination: a FRESH store on the temporary file
+    #[verifier::external_body]
+    pub fn with_config_for_migration_destination(config: StoreConfig, file: FileH) -> (r: MigrationResult<FeoxStore>)
+        ensures r matches Ok(s) ==> !s.read_only_of(),
+    {
+        unimplemented!()
+    }
+}
+// build_read_only: a READ-ONLY recovery of the file (journal replay virtualised, nothing written: units scan_loop / expired_winners)
+#[verifier::external_body]
+pub fn build_read_only(file: FileH, allow_ambiguous_legacy_recovery: bool, hash_bits: u32) -> (r: MigrationResult<FeoxStore>)
+    ensures r matches Ok(s) ==> s.read_only_of(),
+{
+    unimplemented!()
+}
+#[verifier::external_body]
+pub fn source_layout(store: &FeoxStore) -> MigrationResult<SourceLayout> { unimplemented!() }
+#[verifier::external_body]
+pub fn migration_config(hash_bits: u32, file_size: Option<u64>) -> StoreConfig { unimplemented!() }
+impl DestinationGuard {
+    // refuses an existing destination name, creates a fresh temporary file beside it (create_new)
+    #[verifier::external_body]
+    pub fn create(destination: &PathH) -> MigrationResult<DestinationGuard> { unimplemented!() }
+    #[verifier::external_body]
+    pub fn take_file(&mut self) -> FileH { unimplemented!() }
+    #[verifier::external_body]
+    pub fn temporary_path(&self) -> &PathH { unimplemented!() }
+}
+pub fn max_u64(a: u64, b: u64) -> (r: u64)
+    ensures r == (if a >= b { a } else { b }),
+{
+    if a >= b { a } else { b }
+}
+pub fn drop<T>(t: T) {
+}
+
+// std::io::ErrorKind as far as the migration looks at it
+#[derive(PartialEq, Eq)]
+pub enum IoErrorKind { AlreadyExists, NotFound, Other }
+impl IoErr {
+    #[verifier::external_body]
+    pub fn kind(&self) -> IoErrorKind { unimplemented!() }
+}
+// fs::hard_link(a, b) with its io::Result kept (rule R-bindres)
+#[verifier::external_body]
+pub fn fs_hard_link_raw(from: &PathH, to: &PathH) -> std::result::Result<(), IoErr> { unimplemented!() }
